@@ -79,7 +79,7 @@ pub fn defs(input: &str) -> nom::IResult<&str, Vec<(bool, Type, Type)>> {
     delimited(
         multispace0,
         delimited(
-            tag("("),
+            tuple((tag("("), multispace0)),
             map(
                 tuple((tag("def"), many0(decl), opt(report_struct), many0(decl))),
                 |(_, defs1, reports, defs2)| {
@@ -105,7 +105,7 @@ pub fn defs(input: &str) -> nom::IResult<&str, Vec<(bool, Type, Type)>> {
                         .collect()
                 },
             ),
-            tag(")"),
+            tuple((multispace0, tag(")"))),
         ),
         multispace0,
     )(input)
